@@ -1,23 +1,46 @@
-"""C03 - see DESIGN.md §2 C03.  Deductive parts (contracts/) are added to this module as they are built; the bounded stand-in is checks/b03.py."""
+"""C03 - the SMILES reader builds exactly the molecule the text denotes, rejects the rest (DESIGN §2 C03).
+P/fixpoint: `_tokenize` raises only ValueError subclasses for EVERY string (finite-state induction over the real loop body);
+B (checks/b03.py): token strings, grammar strings, corpus and corruptions against a reference reader and RDKit."""
 from vlib import env
-from checks.common import bounded_part, want, contract_sources, make_replay, t_oblig
-from pysym.harness import run_cases
+from checks.common import bounded_part, want, make_replay
 
 LEVEL = 'other'
-DEDUCTIVE = []          # contract modules run by engine P for this property
-FINISH = dict(rule='see checks/b03.py RULE / run.bound entries', explanation='bounded stand-in (engine B) of the contracts of DESIGN §2 C03; '
-              'labelled bounded, never counted as proved', trusted_base=['CPython 3.12', 'oracles/*', 'RDKit where stated'])
 replay = make_replay('C03')
-
-
-def deductive(run):
-    for mod in DEDUCTIVE:
-        run_cases(run, mod)
+FINISH = dict(
+    rule='fixpoint: one obligation per (reachable abstract tokenizer state, character class) and per reachable state for the post-loop block; '
+         'B: strings, non-trivial = accepted string with at least two atoms or any rejected string with a distinct reason',
+    explanation='The raises-contract of _tokenize is an inductive invariant: the loop body, cut from the current AST, is run on a representative of '
+                'every reachable abstract state x character class until the state set is closed; an exception outside ValueError in any reachable '
+                'state is a failed obligation whose witness string is replayed on the real function. What the text denotes (reference reader, '
+                'RDKit) is decided by the bounded stand-in only.',
+    trusted_base=['CPython', 'the abstraction (token_type, token kind, last two tokens) justified by a syntactic dependency check of the loop body',
+                  'oracles/o03_refsmiles.py', 'RDKit (second opinion)'])
 
 
 def main(run):
     env.setup()
-    if want(run, 'P') or want(run, 'T'):
-        deductive(run)
+    if want(run, 'P'):
+        from contracts import tokenizer
+        r = tokenizer.fixpoint()
+        run.under_contract(tokenizer.FILE, '_tokenize', r['text'])
+        if r['problems']:
+            for p in r['problems']:
+                run.oblig(f'_tokenize/dependency-check[{p}]', None, 'P', 'ast', 0.0)
+        unsafe = {}
+        for w, e, name in r['unsafe']:
+            unsafe.setdefault(e, []).append(w)
+        known = {}
+        for e, ws in unsafe.items():
+            w = min(ws, key=lambda x: (len(x), x))
+            nat = tokenizer.replay(w)
+            known[e] = run.violation(f'tokenize-fixpoint:{e}', f'_tokenize({w!r}) raises {e} (not a ValueError): reachable tokenizer state, {len(ws)} witness strings',
+                                     witness={'string': w, 'more': sorted(ws, key=len)[:5]}, obligation=f'_tokenize raises only ValueError [{e}]', native=nat,
+                                     found_input=(nat == e))
+        bad = {name: e for w, e, name in r['unsafe']}
+        for name, ok in r['rows']:
+            run.oblig(name, ok, 'P', 'fixpoint', 0.0, known=(not ok and known.get(bad.get(name)) == 'known'))
+        run.notes['tokenizer_fixpoint'] = {'abstract_states': r['states'], 'character_classes': len(tokenizer.CLASSES)}
     bounded_part(run, 'C03')
+    run.assume('tokenizer abstraction: behaviour of the loop body depends only on token_type, the kind of `token`, the last two tokens and the class of the '
+               'character (checked syntactically: s is only compared with literals / isnumeric / upper, tokens only appended, popped or read at -1)')
     return FINISH
